@@ -204,3 +204,23 @@ _ROUND5 = {
 }
 for _k, _v in _ROUND5.items():
     META[_k]["text"] += " " + _v
+
+# dimensions added after the sixth round (changes aimed at source files no earlier change had touched)
+_ROUND6 = {
+    "C01": "A call may carry two extra-writable options.",
+    "C02": "A third of the collections are case-insensitive (id interceptor) with mixed-case ids.",
+    "C03": "Empty messages are written as values; the burst layer has 1-3 writers on disjoint ids, subscribers that come and go and subscribers that leave in the middle.",
+    "C05": "A single update mask is judged path by path (a path wholly outside the writable fields must be rejected even next to its parent); unions of several mask options keep the set reading.",
+    "C06": "Corrupt paths are also drawn next to their own valid parent.",
+    "C07": "The hail model runs with keep-alives of a few milliseconds so that its clean-up pass runs inside the histories.",
+    "C08": "Bookings without a period are part of the booking histories.",
+    "C09": "The lossy Value test back-dates writes; after a send timeout the consumer returns at a slow, steady pace and later writes must succeed.",
+    "C10": "A third of the resources are configured with duplicate suppression.",
+    "C11": "Models are constructed while others are in use; the hail keep-alive is drawn; a mode model is part of the workload.",
+    "C14": "The further fields of update requests (relative / delta flags and adjustments) are drawn; a light-specific test interrupts a running fade with a plain update and requires the response to stay the value.",
+    "C18": "Segment lists have spare capacity.",
+    "C19": "Every unordered pair of the conflict-prone calls is enumerated on every starting configuration; allow-missing deletes must not answer NotFound.",
+    "C20": "Near-preset percentages and fractional relative steps; model-specific options surrounded by 0-8 plain resource options; a vending configuration case.",
+}
+for _k, _v in _ROUND6.items():
+    META[_k]["text"] += " " + _v
